@@ -219,4 +219,82 @@ theorem C10_block_sound (names : List String) (ts : List LTok) (name : String) (
     · cases h
   · cases h
 
+/-- rule `myid`: identifiers separated by commas, closed by a line end -/
+inductive DIds : List LTok → List String → Prop
+  | last (s : String) : DIds [.id s, .newline] [s]
+  | more (s : String) {ts : List LTok} {ss : List String} : DIds ts ss → DIds (.id s :: .comma :: ts) (s :: ss)
+
+theorem parseIds_sound : ∀ (fuel : Nat) (ts : List LTok) (sig : List String) (rest : List LTok),
+    parseIds fuel ts = some (sig, rest) → ∃ consumed, DIds consumed sig ∧ ts = consumed ++ rest := by
+  intro fuel
+  induction fuel with
+  | zero => intro ts sig rest h; simp [parseIds] at h
+  | succ fuel ih =>
+    intro ts sig rest h
+    unfold parseIds at h
+    split at h
+    · rename_i s r
+      cases hr : parseIds fuel r with
+      | none => rw [hr] at h; simp at h
+      | some p =>
+        rw [hr] at h
+        simp only [Option.map_some, Option.some.injEq, Prod.mk.injEq] at h
+        obtain ⟨rfl, rfl⟩ := h
+        obtain ⟨consumed, hd, he⟩ := ih r p.1 p.2 hr
+        exact ⟨.id s :: .comma :: consumed, DIds.more s hd, by rw [he]; rfl⟩
+    · rename_i s r
+      simp only [Option.some.injEq, Prod.mk.injEq] at h
+      obtain ⟨rfl, rfl⟩ := h
+      exact ⟨[.id s, .newline], DIds.last s, rfl⟩
+    · cases h
+
+/-- **a whole belief-base file, soundness**: an accepted file is `signature`, a line end, the declared atoms (distinct, not the
+constants), then a first `conditionals` block of the documented shape whose name and conditionals (in file order) are the ones
+returned; whatever follows the first block is further input (further blocks) -/
+theorem C10_file_sound (names : List String) (ts : List LTok) (b : ParsedBase) (h : parseBaseToks names ts = some b) :
+    ∃ n0 n1 idToks blockToks nl rest,
+      NLs n0 ∧ NLs n1 ∧ DIds idToks b.signature ∧ DBlock names blockToks b.name b.conds ∧ NLs nl ∧
+      ts = n0 ++ .kwSignature :: .newline :: (n1 ++ (idToks ++ (blockToks ++ (nl ++ rest)))) ∧
+      b.signature.eraseDups.length = b.signature.length ∧ b.signature.contains "Top" = false ∧ b.signature.contains "Bottom" = false := by
+  unfold parseBaseToks at h
+  obtain ⟨n0, hn0, e0⟩ := skipNL_spec ts
+  split at h
+  · rename_i r hs0
+    obtain ⟨n1, hn1, e1⟩ := skipNL_spec r
+    split at h
+    · cases h
+    · rename_i sig r1 hids
+      obtain ⟨idToks, hdi, ei⟩ := parseIds_sound _ _ _ _ hids
+      split at h
+      · rename_i blk more hblocks
+        split at h
+        · cases h
+        · rename_i hchk
+          simp only [Option.some.injEq] at h
+          subst h
+          -- the first block
+          have hfirst : ∃ r', parseBlock names r1 = some (blk, r') := by
+            unfold parseBlocks at hblocks
+            cases hb : parseBlock names r1 with
+            | none => rw [hb] at hblocks; simp at hblocks
+            | some p =>
+              obtain ⟨b0, r'⟩ := p
+              rw [hb] at hblocks
+              cases r' with
+              | nil =>
+                simp only [Option.some.injEq, List.cons.injEq] at hblocks
+                exact ⟨[], by rw [hblocks.1]⟩
+              | cons t r'' =>
+                simp only [Option.map_eq_some_iff, List.cons.injEq] at hblocks
+                obtain ⟨_, _, hb0, _⟩ := hblocks
+                exact ⟨t :: r'', by rw [hb0]⟩
+          obtain ⟨r', hb⟩ := hfirst
+          obtain ⟨blockToks, nl, hdb, hnl, eb⟩ := C10_block_sound names r1 blk.1 blk.2 r' hb
+          refine ⟨n0, n1, idToks, blockToks, nl, r', hn0, hn1, hdi, hdb, hnl, ?_, ?_⟩
+          · rw [e0, hs0, e1, ei, eb]
+          · simp only [Bool.or_eq_true, bne_iff_ne, ne_eq, not_or, Bool.not_eq_true, Decidable.not_not] at hchk
+            exact ⟨hchk.1.1, hchk.1.2, hchk.2⟩
+      · cases h
+  · cases h
+
 end InfOCF
